@@ -252,7 +252,7 @@ def gen_description(rng, force=None, hostile=True, child_types=None):
             p = option_name(rng, "checksum")
             if representable_option(p) and posixpath.normpath(p) == p:
                 t = rng.choice(["sha256", "md5", "sha1", "sha512", "sha384"])
-                checksums[p] = [t, text.chars(rng, HEX, 32, 64)]
+                checksums[p] = [t, text.chars(rng, rng.choice([HEX, HEX, "0123456789ABCDEF", HEX + "ABCDEF"]), 32, 64)]
         if force == "mixed-case-options":
             checksums["images/boot.iso"] = ["sha256", "a" * 64]
             checksums["Images/Boot.iso"] = ["sha256", "b" * 64]
